@@ -1144,3 +1144,14 @@ V("choice-bookkeeping-helper-counts-twice", "break", ["C17"], BS, None, None, "t
   "solve_one", edits=[{"old": _CHOICE_OLD, "new": _CHOICE_CALL + "            statistics[STATS_IDX_SOLVER_CHOICE_NB] += 1\n"}, {"old": "@njit(cache=True)\ndef solve_one(", "new": _CHOICE_DEF}])
 V("choice-bookkeeping-helper-drops-ground", "break", ["C09", "C01", "C08"], BS, None, None, "the same helper, handing the decision's events over without the GROUND bit",
   "solve_one", edits=[{"old": _CHOICE_OLD, "new": _CHOICE_CALL}, {"old": "@njit(cache=True)\ndef solve_one(", "new": _CHOICE_DEF.replace("        events,\n    )", "        events & 3,\n    )")}])
+# ---- round 7: positions appended to the variable -> domain table, extent of the wake-up table, signed level pointer
+V("addvars-domains-numbered-from-variables", "break", ["C13", "C02", "C01", "C16"], PB, None, None,
+  "add_variables numbers the automatically created shared domains from the number of variables (C13-y1)", "add_variables", expect_rule="R-INDEX-KIND",
+  edits=[{"old": "            dom_indices_list = [shr_domain_idx + i for i in range(n)]\n", "new": "            dom_indices_list = list(range(insertion_idx, insertion_idx + n))\n"}])
+V("addvars-domains-range-form", "neutral", ["C13", "C02", "C01", "C16"], PB, None, None, "the same list written with range() from the number of shared domains",
+  edits=[{"old": "            dom_indices_list = [shr_domain_idx + i for i in range(n)]\n", "new": "            dom_indices_list = list(range(shr_domain_idx, shr_domain_idx + n))\n"}])
+V("triggers-rows-from-used-domains", "break", ["C16", "C13"], PB, "        self.triggers = np.zeros((self.shr_domain_nb, self.propagator_nb), dtype=np.uint8)\n",
+  "        self.triggers = np.zeros((max(self.dom_indices_lst) + 1, self.propagator_nb), dtype=np.uint8)\n",
+  "the wake-up table gets one row per shared domain a variable uses (C16-y2): a decision on an unused trailing domain reads past it", "init", expect_rule="R-INIT-COHERENCE")
+V("level-pointer-signed", "break", ["C19", "C16"], BS, "        self.stacks_top = np.ones((1,), dtype=np.uint8)\n", "        self.stacks_top = np.ones((1,), dtype=np.int8)\n",
+  "signed 8-bit level pointer while heights up to 256 are accepted (C19-y2): wraps to -128 at level 128", "__init__", expect_rule="R-CAPACITY")
